@@ -255,6 +255,21 @@ ADDED6 = {
  "C12": "Round 11: the least-squares fit is unconstrained -- no bounds / constraints on scipy.optimize.minimize (C12.b).",
  "C18": "Round 11: the branch of write() that converts to 8 bit is selected by the image's dtype alone, not by file name or options (C18.h); def-use chains follow names by word boundary.",
 }
+# round 12 (DESIGN.md 7.17); appended after ADDED6
+ADDED7 = {
+ "C01": "Round 12: dtype=int constructions of positions in the point module are truncating casts; the point factories keep the values they are given (C01.d).",
+ "C02": "Round 12: C01.d shared (origin and opposite corner of a sub-image are built by the point factories).",
+ "C04": "Round 12: the quadrature rules behind the reported cost are exact (C15 shared).",
+ "C05": "Round 12: the quadrature rules behind the distance are exact (C15 shared).",
+ "C08": "Round 12: the direct back-end factorises with SuperLU's default pivoting (C08.m).",
+ "C09": "Round 12: roles of locals bound to typed conversions (C09.f); integer voxels converted without going through voxel centres is a named contradiction (C09.d).",
+ "C10": "Round 12: hidden-state analysis of every concrete correction with correct_array as entry (C10.h; CurvatureCorrection's documented grid cache exempt).",
+ "C14": "Round 12: model __call__ methods name the extra arguments they use -- CombinedModel counts co_argcount (C14.g).",
+ "C16": "Round 12: a reset at inner iteration 0 that also depends on the history left by earlier calls is a named contradiction (C16.d).",
+ "C17": "Round 12: an in-place product on the copy keeps the array's dtype -- differs from raw-array arithmetic (C17.d).",
+ "C18": "Round 12: every configuring method (not only the constructor) is a source of configuration that load must restore (C18.d).",
+ "C20": "Round 12 (level other): every call of the layout helpers passes the dimension of the array (C20.b).",
+}
 GENERIC2 = " For every property: no default-argument object is modified in place, and optional parameters (default None) of the anchored modules are compared with None, never tested by truth value."
 
 NOT_YET = {}
@@ -266,7 +281,7 @@ def main():
         pid = p["id"]
         if pid in CLAIMED:
             cat, tech, text, note = CLAIMED[pid]
-            text = text + (" " + ADDED[pid] if pid in ADDED else "") + (" " + ADDED2[pid] if pid in ADDED2 else "") + (" " + ADDED3[pid] if pid in ADDED3 else "") + (" " + ADDED4[pid] if pid in ADDED4 else "") + (" " + ADDED5[pid] if pid in ADDED5 else "") + (" " + ADDED6[pid] if pid in ADDED6 else "") + COMMON + GENERIC2 + POLICY
+            text = text + (" " + ADDED[pid] if pid in ADDED else "") + (" " + ADDED2[pid] if pid in ADDED2 else "") + (" " + ADDED3[pid] if pid in ADDED3 else "") + (" " + ADDED4[pid] if pid in ADDED4 else "") + (" " + ADDED5[pid] if pid in ADDED5 else "") + (" " + ADDED6[pid] if pid in ADDED6 else "") + (" " + ADDED7[pid] if pid in ADDED7 else "") + COMMON + GENERIC2 + POLICY
             checks.append({
                 "property_id": pid,
                 "quick_cmd": f"./check {pid} --tier quick",
